@@ -85,6 +85,27 @@ pub fn run(ctx: &mut Ctx, _replay: Option<&[String]>) {
     ctx.emit("c20 girth ccsds 1/2 1024", o.stdout.trim(), true, &["girth"]);
     let o = run_bin(&bin, &["dvbs2", "--rate", "1/2", "--girth"]);
     ctx.emit("c20 girth dvbs2 1/2 normal", o.stdout.trim(), true, &["girth"]);
+    // "... or its girth when asked": --girth of the other codes against the library's girth() of the matrix the library constructs
+    // (all AR4JA codes up to k = 4096, rate 4/5 k = 16384, C2 is documented above; two short DVB-S2 codes)
+    {
+        let fmt = |g: Option<usize>| match g { Some(g) => format!("Code girth = {}", g), None => "Code girth is infinite".to_string() };
+        for r in enum_iterator::all::<ccsds::AR4JARate>() {
+            for sz in enum_iterator::all::<ccsds::AR4JAInfoSize>() {
+                let k = match format!("{:?}", sz).as_str() { "K1024" => 1024, "K4096" => 4096, _ => 16384 };
+                if k == 16384 && (format!("{:?}", r) != "R4_5") { continue; }
+                if k == 4096 && !ctx.thorough && format!("{:?}", r) == "R1_2" { continue; }
+                let rs = match format!("{:?}", r).as_str() { "R1_2" => "1/2", "R2_3" => "2/3", _ => "4/5" };
+                let o = run_bin(&bin, &["ccsds", "--rate", rs, "--block-size", &k.to_string(), "--girth"]);
+                let want = fmt(ccsds::AR4JACode::new(r, sz).h().girth());
+                ctx.emit(&format!("c20 same ccsds-girth-{}-{}", rs, k), if o.stdout.trim() == want && !o.status_nonzero { "equal" } else { "DIFFERENT" }, true, &["girth-vs-library"]);
+            }
+        }
+        for (rate, code) in [("8/9", dvbs2::Code::R8_9short), ("1/4", dvbs2::Code::R1_4short)] {
+            let o = run_bin(&bin, &["dvbs2", "--rate", rate, "--short", "--girth"]);
+            let want = fmt(code.h().girth());
+            ctx.emit(&format!("c20 same dvbs2-girth-{}-short", rate), if o.stdout.trim() == want && !o.status_nonzero { "equal" } else { "DIFFERENT" }, true, &["girth-vs-library"]);
+        }
+    }
     // ---------------------------------------------------------------- systematic, peg, mackay-neal: stdout = library result
     for k in 0..ctx.scale(30, 300) {
         let (mut h, _) = crate::c02::gen_h(&mut rng, 8, 16);
@@ -260,6 +281,11 @@ pub fn run(ctx: &mut Ctx, _replay: Option<&[String]>) {
         ("ber-bad-alist", vec!["ber", &bad, "--min-ebn0", "1", "--max-ebn0", "2", "--step-ebn0", "1"]),
         ("ber-bad-pattern", vec!["ber", &good, "--min-ebn0", "1", "--max-ebn0", "2", "--step-ebn0", "1", "--puncturing", "x"]),
         ("ber-unknown-decoder", vec!["ber", &good, "--min-ebn0", "1", "--max-ebn0", "2", "--step-ebn0", "1", "--decoder", "Phif65"]),
+        // the 36 names are offered under exactly their strings: other letter cases are not names
+        ("ber-decoder-lower-case", vec!["ber", &good, "--min-ebn0", "1", "--max-ebn0", "2", "--step-ebn0", "1", "--decoder", "phif64"]),
+        ("ber-decoder-upper-case", vec!["ber", &good, "--min-ebn0", "1", "--max-ebn0", "2", "--step-ebn0", "1", "--decoder", "HLAMINSTARI8"]),
+        ("ber-decoder-mixed-case", vec!["ber", &good, "--min-ebn0", "1", "--max-ebn0", "2", "--step-ebn0", "1", "--decoder", "HlPhif64"]),
+        ("ber-modulation-lower-case", vec!["ber", &good, "--min-ebn0", "1", "--max-ebn0", "2", "--step-ebn0", "1", "--modulation", "bpsk"]),
         ("ccsds-bad-block-size", vec!["ccsds", "--rate", "1/2", "--block-size", "1000"]),
         ("ccsds-block-size-1025", vec!["ccsds", "--rate", "1/2", "--block-size", "1025"]),
         ("ccsds-block-size-4097", vec!["ccsds", "--rate", "2/3", "--block-size", "4097"]),
@@ -331,12 +357,31 @@ pub fn run(ctx: &mut Ctx, _replay: Option<&[String]>) {
             "Frame size (N): 9", "Code rate: 0.889", "Implementation: HLPhif32", "Maximum iterations: 10"];
         let ok = !o.status_nonzero && data.len() == 2 && data.iter().all(|d| ident(d, 8.0) && d[3] == 15.0) && want.iter().all(|w| details.contains(w));
         ctx.emit("c20 berx punctured-interleaved-8psk", &format!("{} {}", data.len(), ok as u8), true, &["ber-result-file-punctured-8psk"]);
+        // (a2) interleaver column counts that divide the punctured frame (N = 9) but not the codeword (12), forward and backward
+        for cols in ["9", "=-9"] {
+            let of = format!("{}/ber-punct-il{}.txt", dir, cols.trim_start_matches('='));
+            let il = if cols.starts_with('=') { format!("--interleaving{}", cols) } else { format!("--interleaving={}", cols) };
+            let o = run_bin(&bin, &["ber", &good, "--min-ebn0", "3", "--max-ebn0", "4", "--step-ebn0", "1", "--frame-errors", "10", "--max-iter", "10",
+                "--decoder", "Minstarapproxi8", "--puncturing", "1,1,1,0", &il, "--output-file", &of]);
+            let (data, details) = parse(&std::fs::read_to_string(&of).unwrap_or_default());
+            let ok = !o.status_nonzero && data.len() == 2 && data.iter().all(|d| ident(d, 8.0) && d[3] == 10.0) && details.contains("Frame size (N): 9");
+            ctx.emit(&format!("c20 berx punctured-interleaver-columns-{}", cols.trim_start_matches('=')), &format!("{} {}", data.len(), ok as u8), true, &["ber-result-file-punctured-interleaved"]);
+        }
         // (b) outer code correcting up to 2 bit errors: the main file counts frames with > 2 bit errors, the LDPC-only file every erroneous frame
         let (of, ofl) = (format!("{}/ber-bch.txt", dir), format!("{}/ber-ldpc.txt", dir));
         let o = run_bin(&bin, &["ber", &good, "--min-ebn0", "2", "--max-ebn0", "3", "--step-ebn0", "1", "--frame-errors", "15", "--max-iter", "10",
             "--decoder", "Aminstari8", "--bch-max-errors", "2", "--output-file", &of, "--output-file-ldpc", &ofl]);
         let (dm, det_m) = parse(&std::fs::read_to_string(&of).unwrap_or_default());
         let (dl, det_l) = parse(&std::fs::read_to_string(&ofl).unwrap_or_default());
+        // (c) the LDPC-only file WITHOUT the main file (each output option on its own)
+        {
+            let only = format!("{}/ber-ldpc-only.txt", dir);
+            let o2 = run_bin(&bin, &["ber", &good, "--min-ebn0", "2", "--max-ebn0", "3", "--step-ebn0", "1", "--frame-errors", "10", "--max-iter", "10",
+                "--decoder", "Aminstari8", "--bch-max-errors", "2", "--output-file-ldpc", &only]);
+            let (d2, det2) = parse(&std::fs::read_to_string(&only).unwrap_or_default());
+            let ok2 = !o2.status_nonzero && d2.len() == 2 && det2.contains("LDPC-only results") && d2.iter().all(|d| ident(d, 8.0));
+            ctx.emit("c20 berx ldpc-only-file-without-main-file", &format!("{} {}", d2.len(), ok2 as u8), true, &["ber-result-file-ldpc-only"]);
+        }
         let mut ok = !o.status_nonzero && dm.len() == 2 && dl.len() == 2 && det_m.contains("LDPC+BCH results") && det_l.contains("LDPC-only results")
             && det_m.contains("Maximum bit errors correctable: 2");
         for (m, l) in dm.iter().zip(dl.iter()) {
